@@ -59,6 +59,26 @@ void vp_nat_abort(const char *msg) {
 void vp_nat_reach(const char *msg) { n_reach++; if (!quiet) printf("VP-WITNESS: %s\n", msg); }
 void vp_nat_obs(uint64_t x) { obs_hash = (obs_hash ^ x) * 1099511628211ULL; }
 
+/* ---- C20 support: module-level mutable state by symbol name (function-local statics of inline functions are weak, exported with -rdynamic), and
+ * read-only shared objects (a page that is mprotect()ed while the library runs: a store into it faults, which is how a write that leaves the value
+ * unchanged -- invisible to any comparison -- is reproduced natively) */
+#include <dlfcn.h>
+#include <sys/mman.h>
+#include <unistd.h>
+static unsigned char vp_gshadow[8][4096];
+int vp_nat_globals(const char *const *names, const unsigned *sizes, int n, int mode) {
+  int ok = 1;
+  for (int k = 0; k < n && k < 8; k++) {
+    void *p = dlsym(RTLD_DEFAULT, names[k]); unsigned sz = sizes[k] < 4096 ? sizes[k] : 4096;
+    if (!p) continue;            /* not instantiated in the native build: nothing to compare */
+    if (mode == 0) memcpy(vp_gshadow[k], p, sz); else if (memcmp(vp_gshadow[k], p, sz)) ok = 0;
+  }
+  return ok;
+}
+void *vp_ro_alloc(uint64_t n) { long ps = sysconf(_SC_PAGESIZE); size_t len = ((n + (size_t)ps) / (size_t)ps) * (size_t)ps; void *p = mmap(0, len, PROT_READ | PROT_WRITE, MAP_PRIVATE | MAP_ANONYMOUS, -1, 0); return p == MAP_FAILED ? 0 : p; }
+void vp_ro_seal(void *p, uint64_t n) { long ps = sysconf(_SC_PAGESIZE); size_t len = ((n + (size_t)ps) / (size_t)ps) * (size_t)ps; mprotect(p, len, PROT_READ); }
+void vp_ro_unseal(void *p, uint64_t n) { long ps = sysconf(_SC_PAGESIZE); size_t len = ((n + (size_t)ps) / (size_t)ps) * (size_t)ps; mprotect(p, len, PROT_READ | PROT_WRITE); }
+
 int main(int argc, char **argv) {
   /* usage: prog <inputs.txt>   |   prog --seed N [--quiet] */
   if (argc >= 3 && !strcmp(argv[1], "--seed")) { use_prng = 1; prng = strtoull(argv[2], 0, 10); if (argc >= 4) quiet = 0; }
